@@ -44,6 +44,7 @@ if [ $R0 -eq 0 ] && [ $RB -eq 0 ] && [ $R1 -ne 0 ]; then
   done
   git -C $RUT checkout -- .
   git -C $RUT status --short
+  git -C /verif checkout -- lean/Pokerface/Generated 2>/dev/null   # the files regenerated from the changed tree are not /repo's
 else
   RES="not-confirmed"
 fi
